@@ -547,7 +547,34 @@ def ob_whitening_eig(kind):
         goals.append(Goal("decorrelation: D^H R D == diag(L)", _meq(_conjT(Dm).dot(R).dot(Dm), D)))
         goals.append(Goal("decorrelation: D^H D == I", _meq(_conjT(Dm).dot(Dm), np.eye(n, dtype=object))))
         return goals
-    return verify(body, check_side=False, timeout_ms=120000)
+
+    def rp(mv):
+        # replay on the real routines: covariances with distinct eigenvalues (those of the counter-model when it has them), generic unitary factors
+        import pyphysim.util.misc as misc
+        from .common import num
+        try:
+            n = int(kind[1])
+            rr = np.random.RandomState(17)
+            Ls = []
+            try:
+                cand = [float(num(mv.get("l%d" % i), 0.0)) for i in range(n)]
+                if min(cand) > 0 and len(set(cand)) == n:
+                    Ls.append(cand)
+            except Exception:
+                pass
+            Ls += [list(np.linspace(0.5, 3.0, n)), list(10.0 ** -np.arange(9, 9 + n))]
+            for L in Ls:
+                A = rr.randn(n, n) + (1j * rr.randn(n, n) if kind[0] == "c" else 0)
+                V, _ = np.linalg.qr(A)
+                R = V @ np.diag(L) @ V.conj().T
+                W = misc.calc_whitening_matrix(R)
+                e = float(np.abs(W.conj().T @ R @ W - np.eye(n)).max())
+                if not (e <= 1e-8):
+                    return {"confirmed": True, "eigenvalues of the covariance": [float(x) for x in L], "max |W^H R W - I|": e}
+            return {"confirmed": False, "note": "real whitening matrices whiten these covariances"}
+        except Exception as e:
+            return {"confirmed": False, "error": "replay crashed: %r" % (e,)}
+    return verify(body, check_side=False, timeout_ms=120000, replay=rp)
 
 
 @obligation("native/whitening_distinct_eigenvalues", kind="bounded",
